@@ -1,6 +1,12 @@
-(* Props/C18.v — property theorems only; proofs live in Proofs/. *)
+(* Props/C18.v — property theorems only; proofs live in Proofs/C18.v.
+   C18: filesystem authentication cannot be steered outside its directory. *)
 From Coq Require Import List NArith ZArith.
 From Cedar Require Import Lib.Bytes Model.FSPath gen.FactsC18 Proofs.C18.
+Import ListNotations.
+Import Coq.Strings.String.StringSyntax.
+
+(* The recognisers of the model were written for exactly the regular expressions
+   and base directory regenerated from the source (gen/FactsC18.v). *)
 Theorem C18_sources_match :
   FactsC18.fsAuthLocalLeafRE = local_re_src /\
   FactsC18.fsAuthRemoteLeafRE = remote_re_src /\
@@ -8,3 +14,109 @@ Theorem C18_sources_match :
   FactsC18.fsAuthBaseDir = base_dir_src.
 Proof. exact facts_match. Qed.
 Print Assumptions C18_sources_match.
+
+(* The recognisers denote the regular expressions (stated as shapes). *)
+Theorem C18_local_recogniser : forall leaf, local_leaf_ok leaf = true <-> local_shape leaf.
+Proof. exact local_ok_spec. Qed.
+Print Assumptions C18_local_recogniser.
+Theorem C18_remote_recogniser : forall leaf, remote_leaf_ok leaf = true <-> remote_shape leaf.
+Proof. exact remote_ok_spec. Qed.
+Print Assumptions C18_remote_recogniser.
+
+(* For EVERY path string, mode and peer: an accepted path is the base directory,
+   one '/', and a leaf that has no '/', no NUL, is not empty, "." or "..", and
+   is of a recognised shape -- naming the connection's endpoint when it is
+   address-qualified. *)
+Theorem C18_validate_shape : forall p remote pr leaf,
+  validate p remote pr = VOk leaf ->
+  p = fs_base ++ slash :: leaf /\
+  (forall b, In b leaf -> b <> slash /\ b <> x00) /\
+  leaf <> [] /\ leaf <> [dot] /\ leaf <> [dot; dot] /\
+  ((exists ip port, addr_shape remote leaf ip port /\ names_endpoint ip port pr) \/
+   (remote = false /\ local_shape leaf) \/
+   (remote = true /\ remote_shape leaf)).
+Proof. exact validate_shape. Qed.
+Print Assumptions C18_validate_shape.
+
+(* For EVERY server script and filesystem: the client's filesystem effects are
+   none, or one Mkdir of base/leaf for the validated leaf of the path received,
+   followed by its Remove when the Mkdir succeeded; the reply is 0 exactly in
+   the latter case. *)
+Theorem C18_effects : forall remote pr env sc,
+  let x := client_exchange remote pr env sc in
+  x_eff x = [] \/
+  exists p leaf, sc_path sc = IoOk p /\ sc_eom1 sc = EomOk /\ validate p remote pr = VOk leaf /\
+    open_root_ok env = true /\
+    ((mkdir_ok env leaf = false /\ x_eff x = [EMkdir (under_base leaf) false] /\ x_reply x = Some (-1)%Z) \/
+     (mkdir_ok env leaf = true /\ x_eff x = [EMkdir (under_base leaf) true; ERmdir (under_base leaf)] /\ x_reply x = Some 0%Z)).
+Proof. exact exchange_effects. Qed.
+Print Assumptions C18_effects.
+
+(* A script that delivers no acceptable path causes no filesystem effect at all
+   and, once the path message was complete, the clean failure reply -1. *)
+Theorem C18_rejected_no_effect : forall remote pr env sc,
+  (forall p leaf, sc_path sc = IoOk p -> validate p remote pr <> VOk leaf) ->
+  let x := client_exchange remote pr env sc in
+  x_eff x = [] /\ (x_reply x = None \/ x_reply x = Some (-1)%Z) /\
+  (forall p, sc_path sc = IoOk p -> sc_eom1 sc = EomOk -> x_reply x = Some (-1)%Z).
+Proof. exact exchange_rejected. Qed.
+Print Assumptions C18_rejected_no_effect.
+
+(* On EVERY way the exchange ends after a successful Mkdir, the last effect is
+   the Remove of the same directory. *)
+Theorem C18_cleanup : forall remote pr env sc q,
+  In (EMkdir q true) (x_eff (client_exchange remote pr env sc)) ->
+  exists before, x_eff (client_exchange remote pr env sc) = before ++ [ERmdir q].
+Proof. exact exchange_cleanup. Qed.
+Print Assumptions C18_cleanup.
+
+(* The server accepts only a real directory that is not a symlink, has mode 0700
+   and link count 1 or 2, after a client result of 0; the identity is the owner. *)
+Theorem C18_server_accepts : forall code st lookup who,
+  server_verdict code st lookup = (0%Z, who) ->
+  code = 0%Z /\
+  exists s u, st = Some s /\ st_dir s = true /\ st_symlink s = false /\
+    st_perm s = owner_only_perm /\ (st_nlink s = 1%N \/ st_nlink s = 2%N) /\
+    lookup (st_uid s) = Some u /\ who = Some u.
+Proof. exact server_accepts. Qed.
+Print Assumptions C18_server_accepts.
+Theorem C18_server_identity_only_on_accept : forall code st lookup res u,
+  server_verdict code st lookup = (res, Some u) -> res = 0%Z.
+Proof. exact server_identity_only_on_accept. Qed.
+Print Assumptions C18_server_identity_only_on_accept.
+
+(* ---------- non-vacuity -------------------------------------------------------- *)
+Local Open Scope string_scope.
+Example C18_ex_local : validate (bs "/tmp/FS_XXXjlv9Zj") false PNone = VOk (bs "FS_XXXjlv9Zj").
+Proof. vm_compute. reflexivity. Qed.
+Example C18_ex_remote : validate (bs "/tmp/FS_REMOTE_my_host.example_42_67890") true PBad = VOk (bs "FS_REMOTE_my_host.example_42_67890").
+Proof. vm_compute. reflexivity. Qed.
+Example C18_ex_addr :
+  validate (bs "/tmp/FS_REMOTE_::ffff:127.0.0.1_19618_XXXQ8dEz7") true (PHP (bs "127.0.0.1") (bs "19618"))
+  = VOk (bs "FS_REMOTE_::ffff:127.0.0.1_19618_XXXQ8dEz7").
+Proof. vm_compute. reflexivity. Qed.
+Example C18_ex_addr_wrong_port :
+  validate (bs "/tmp/FS_REMOTE_127.0.0.1_19619_XXXQ8dEz7") true (PHP (bs "127.0.0.1") (bs "19618")) = VErr 6.
+Proof. vm_compute. reflexivity. Qed.
+Example C18_ex_nested : validate (bs "/tmp/sub/FS_12345") false PNone = VErr 4.
+Proof. vm_compute. reflexivity. Qed.
+Example C18_ex_traversal : validate (bs "/tmp/FS_12345/../FS_67890") false PNone = VErr 3.
+Proof. vm_compute. reflexivity. Qed.
+Example C18_ex_prefix_only : validate (bs "/tmp/FS_anything-I-want") false PNone = VErr 7.
+Proof. vm_compute. reflexivity. Qed.
+(* an exchange in which the directory is created, the send of the result fails,
+   and the directory is removed all the same *)
+Example C18_ex_cleanup_on_send_failure :
+  x_eff (client_exchange false PNone {| open_root_ok := true; mkdir_ok := fun _ => true |}
+           {| sc_path := IoOk (bs "/tmp/FS_12345"); sc_eom1 := EomOk; sc_put := true; sc_fin := false;
+              sc_res := IoFail; sc_eom2 := EomErr |})
+  = [EMkdir (bs "/tmp/FS_12345") true; ERmdir (bs "/tmp/FS_12345")].
+Proof. vm_compute. reflexivity. Qed.
+Example C18_ex_server_accepts :
+  server_verdict 0 (Some {| st_dir := true; st_symlink := false; st_perm := 448; st_nlink := 2; st_uid := 0 |})
+                 (fun _ => Some (bs "root")) = (0%Z, Some (bs "root")).
+Proof. vm_compute. reflexivity. Qed.
+Example C18_ex_server_rejects_0755 :
+  server_verdict 0 (Some {| st_dir := true; st_symlink := false; st_perm := 493; st_nlink := 2; st_uid := 0 |})
+                 (fun _ => Some (bs "root")) = ((-1)%Z, None).
+Proof. vm_compute. reflexivity. Qed.
